@@ -975,6 +975,92 @@ impl TryInto<FilterOptions> for IndexerSearchKey {
     }
 }
 
+/// verif hook: the crate-private `Indexer` over a `RocksdbStore` on a caller-chosen
+/// directory, driven synchronously (append / rollback / tip exactly as
+/// `IndexerSync` exposes them), plus an `IndexerHandle` on the same store.
+#[cfg(feature = "verif-hooks")]
+pub struct VerifIndexer {
+    indexer: Indexer<RocksdbStore>,
+}
+
+#[cfg(feature = "verif-hooks")]
+impl VerifIndexer {
+    /// Open (or create) the store at `path`; no tx-pool overlay, no custom filters.
+    pub fn open<P: AsRef<std::path::Path>>(path: P, keep_num: u64, prune_interval: u64) -> Self {
+        let store = RocksdbStore::new(&RocksdbStore::default_options(), path);
+        VerifIndexer {
+            indexer: Indexer::new(
+                store,
+                keep_num,
+                prune_interval,
+                None,
+                CustomFilters::new(None, None),
+            ),
+        }
+    }
+
+    /// `IndexerSync::append`
+    pub fn append(&self, block: &core::BlockView) -> Result<(), Error> {
+        ckb_indexer_sync::IndexerSync::append(&self.indexer, block)
+    }
+
+    /// `IndexerSync::rollback`
+    pub fn rollback(&self) -> Result<(), Error> {
+        ckb_indexer_sync::IndexerSync::rollback(&self.indexer)
+    }
+
+    /// `IndexerSync::tip`
+    pub fn tip(&self) -> Result<Option<(core::BlockNumber, packed::Byte32)>, Error> {
+        ckb_indexer_sync::IndexerSync::tip(&self.indexer)
+    }
+
+    /// `Indexer::get_live_cells_by_lock_script` / `..._by_type_script`
+    pub fn live_cells_by_script(
+        &self,
+        script: &packed::Script,
+        is_lock: bool,
+    ) -> Result<Vec<packed::OutPoint>, Error> {
+        if is_lock {
+            self.indexer.get_live_cells_by_lock_script(script)
+        } else {
+            self.indexer.get_live_cells_by_type_script(script)
+        }
+    }
+
+    /// `Indexer::get_transactions_by_lock_script` / `..._by_type_script`
+    pub fn transactions_by_script(
+        &self,
+        script: &packed::Script,
+        is_lock: bool,
+    ) -> Result<Vec<packed::Byte32>, Error> {
+        if is_lock {
+            self.indexer.get_transactions_by_lock_script(script)
+        } else {
+            self.indexer.get_transactions_by_type_script(script)
+        }
+    }
+
+    /// The RPC query layer on the same store.
+    pub fn handle(&self, request_limit: usize) -> IndexerHandle {
+        IndexerHandle {
+            store: self.indexer.store().clone(),
+            pool: None,
+            request_limit,
+            timeout_limit: Duration::from_secs(600),
+        }
+    }
+
+    /// Read-only dump of every stored key/value pair in key order.
+    pub fn dump(&self) -> Vec<(Vec<u8>, Vec<u8>)> {
+        self.indexer
+            .store()
+            .iter([], IteratorDirection::Forward)
+            .expect("iter should be OK")
+            .map(|(k, v)| (k.to_vec(), v.to_vec()))
+            .collect()
+    }
+}
+
 #[cfg(test)]
 mod tests {
     use super::*;
